@@ -165,6 +165,11 @@ pub struct Win {
     pub fill: usize,
     pub bytes: Option<usize>,
     pub canaries_ok: bool,
+    /// extra bytes appended to the queried size (0 for the exact-scratch property; the cross-backend comparison of C10
+    /// gives generous room so that it judges values only)
+    pub slack: usize,
+    /// C10 mode: prepared (DFT-domain) results are additionally observed through a coefficient-domain operation
+    pub observe_prepared: bool,
 }
 
 impl Win {
@@ -173,10 +178,22 @@ impl Win {
             fill,
             bytes: None,
             canaries_ok: true,
+            slack: 0,
+            observe_prepared: false,
+        }
+    }
+    pub fn generous() -> Self {
+        Win {
+            fill: 2,
+            bytes: None,
+            canaries_ok: true,
+            slack: 1 << 20,
+            observe_prepared: true,
         }
     }
     /// runs the operation under test on a window of exactly `bytes` bytes
     pub fn call<B: Bk, T>(&mut self, bytes: usize, f: impl FnOnce(&mut Scratch<B>) -> T) -> Result<T, String> {
+        let bytes = bytes + self.slack;
         let mut buf = alloc_aligned::<u8>(PAD + bytes + PAD + 64);
         buf.fill(CANARY);
         garbage(&mut buf[PAD..PAD + bytes], self.fill);
@@ -205,7 +222,7 @@ pub type Outs = Vec<(String, Vec<u8>)>;
 fn i64_bytes(x: &[i64]) -> Vec<u8> {
     x.iter().flat_map(|v| v.to_le_bytes()).collect()
 }
-fn glwe_out<G: GLWEToRef>(g: &G) -> Vec<u8> {
+pub fn glwe_out<G: GLWEToRef>(g: &G) -> Vec<u8> {
     i64_bytes(g.to_ref().data().raw())
 }
 fn ggsw_out(g: &GGSW<Vec<u8>>) -> Vec<u8> {
@@ -217,14 +234,34 @@ fn ggsw_out(g: &GGSW<Vec<u8>>) -> Vec<u8> {
     }
     v
 }
-fn prep_out<B: Bk, T: Word>(p: &Prep<B, T>) -> Vec<u8> {
+pub fn prep_out<B: Bk, T: Word>(p: &Prep<B, T>) -> Vec<u8> {
     let mut v = vec![];
     for i in 0..T::bits() {
         v.extend_from_slice(p.get_bit(i).data().data());
     }
     v
 }
-fn ser<W: WriterTo>(w: &W) -> Vec<u8> {
+/// every bit of a prepared word used as CMux selector on the noiseless constants 1/4 and 0 (coefficient-domain result)
+pub fn prep_through_cmux<B: Bk, T: Word>(ctx: &Ctx<B>, p: &Prep<B, T>) -> Result<Vec<u8>, String>
+where
+    Module<B>: HalAll<B> + CoreAll<B> + UintAll<B>,
+    Scratch<B>: ScratchTakeCore<B>,
+    ScratchOwned<B>: ScratchOwnedAlloc<B> + ScratchOwnedBorrow<B>,
+{
+    let infos = ctx.p.glwe_infos();
+    let zero: GLWE<Vec<u8>> = GLWE::alloc_from_infos(&infos);
+    let mut one: GLWE<Vec<u8>> = GLWE::alloc_from_infos(&infos);
+    one.data_mut().at_mut(0, 0)[0] = 1i64 << (ctx.p.base2k - 2);
+    let mut s = arena::<B>(ctx, 2);
+    let mut v = vec![];
+    for i in 0..T::bits() {
+        let mut res: GLWE<Vec<u8>> = GLWE::alloc_from_infos(&infos);
+        guarded(|| ctx.module.cmux(&mut res, &one, &zero, &p.get_bit(i), B::borrow(&mut s)))?;
+        v.extend(glwe_out(&res));
+    }
+    Ok(v)
+}
+pub fn ser<W: WriterTo>(w: &W) -> Vec<u8> {
     let mut v = vec![];
     w.write_to(&mut v).expect("serialisation");
     v
@@ -346,7 +383,7 @@ where
 /// Runs the case's operation once on an exact window; Err(panic message) if the operation (or its set-up) panicked.
 /// `win.bytes` tells whether the operation under test was reached.
 #[allow(clippy::too_many_lines)]
-fn run_op<B: Bk, T: Word>(ctx: &Ctx<B>, c: &C12Case, win: &mut Win) -> Result<Outs, String>
+pub fn run_op<B: Bk, T: Word>(ctx: &Ctx<B>, c: &C12Case, win: &mut Win) -> Result<Outs, String>
 where
     Module<B>: HalAll<B>
         + CoreAll<B>
@@ -622,6 +659,9 @@ where
                 + m.ggsw_encrypt_sk_tmp_bytes(&sl).max(m.ggsw_prepare_tmp_bytes(&sl));
             win.call::<B, _>(by, |s| pr.encrypt_sk(m, T::from_u64(word), &ctx.sk_prep, &enc, &mut Source::new([0x23; 32]), &mut Source::new([0x24; 32]), s))?;
             outs.push(("prepared".into(), prep_out::<B, T>(&pr)));
+            if win.observe_prepared {
+                outs.push(("prepared_through_cmux".into(), prep_through_cmux::<B, T>(ctx, &pr)?));
+            }
         }
         // v = [entry point: 0 = FheUintPrepared::prepare, 1 = Module::fhe_uint_prepare, 2 = Module::fhe_uint_prepare_custom,
         //      3 = FheUintPrepared::prepare_custom, start, length]
@@ -637,6 +677,9 @@ where
                 _ => win.call::<B, _>(by, |s| pr.prepare_custom(m, &ct, start, start + len, key, s))?,
             }
             outs.push(("prepared".into(), prep_out::<B, T>(&pr)));
+            if win.observe_prepared {
+                outs.push(("prepared_through_cmux".into(), prep_through_cmux::<B, T>(ctx, &pr)?));
+            }
         }
         "debug_prepare" => {
             let ct = guarded(|| encrypt_word::<B, T>(ctx, T::from_u64(word), 5))?;
@@ -943,6 +986,21 @@ where
                 return;
             }
         }
+    }
+}
+
+/// `run_op` dispatched on the case's word width
+pub fn run_op_w<B: Bk>(ctx: &Ctx<B>, c: &C12Case, win: &mut Win) -> Result<Outs, String>
+where
+    Module<B>: HalAll<B> + CoreAll<B> + UintAll<B> + Uint12All<B>,
+    Scratch<B>: ScratchTakeCore<B>,
+    ScratchOwned<B>: ScratchOwnedAlloc<B> + ScratchOwnedBorrow<B>,
+    Prep<B, u32>: Sync,
+{
+    match c.width.as_str() {
+        "u8" => run_op::<B, u8>(ctx, c, win),
+        "u16" => run_op::<B, u16>(ctx, c, win),
+        _ => run_op::<B, u32>(ctx, c, win),
     }
 }
 
